@@ -178,12 +178,46 @@ def h_corpus(ctx, fmt="gamess", fn="PCGamess_PUNCH.dat", units=None, skip=None, 
                        detail=f"factor {sample!r} instead of {want[0]!r} ({nbad}/{nsym} elements)")
 
 
+def h_molden_units(ctx, unit="(Angs)", twin=False):
+    """Molden [Atoms] header: AU / (AU) -> bohr, Angs / (Angs) -> angstrom (Molden format description)."""
+    import iodata.api as api
+    import iodata.formats.molden as molden
+    from iodata.utils import LoadError
+    from specs import layouts as L
+    mods = rt._fmt_modules("molden")
+    x = [[ctx.real(f"x{i}_{k}", lo=-50, hi=50, default=0.3 * (i + 1) * (k + 1)) for k in range(3)] for i in range(2)]
+    saved = molden._is_normalized_properly
+    molden._is_normalized_properly = lambda *a, **k: True      # the vendor cascade is the subject of C05
+    try:
+        with stubbed(*mods):
+            text = L.write_molden(dict(unit=unit, atoms=[(1, *x[0]), (1, *x[1])]))
+            p = ctx.tmp_path("u.molden")
+            ctx.write_text(p, text)
+            with warnings.catch_warnings(record=True):
+                warnings.simplefilter("always")
+                try:
+                    d = api.load_one(p)
+                except LoadError as e:
+                    ctx.oblige("molden-file-loads", False, cls=unit, detail=f"{e} / {e.__cause__!r}")
+                    return
+    finally:
+        molden._is_normalized_properly = saved
+    f = ref("angstrom")[0] if "ang" in unit.lower() else 1.0
+    if twin:
+        f = f * 2
+    want = np.array([[v * f for v in row] for row in x], dtype=object if ctx.mode == "sym" else float)
+    ctx.oblige("molden-coordinates-in-atomic-units", ctx.approx(d.atcoords, want, 1e-7, atol=1e-9), cls=unit)
+
+
 def jobs(tier):
     M = "harness.c04"
     out = [job("C04", "unit-constants", M, "h_constants", {}, validate=False)]
     for fmt, fn, units, skip in CASES:
         out.append(job("C04", f"corpus[{fmt},{fn}]", M, "h_corpus", dict(fmt=fmt, fn=fn, units=units, skip=skip),
                        budget_s=600, max_validate=0, validate=False))
+    for unit in ("AU", "(AU)", "Angs", "(Angs)", "(ANGS)", "au"):
+        out.append(job("C04", f"molden-units[{unit}]", M, "h_molden_units", dict(unit=unit), max_validate=2))
+    out.append(job("C04", "molden-units[twin]", M, "h_molden_units", dict(unit="AU", twin=True), expect="cex", max_validate=0))
     out.append(job("C04", "corpus[twin]", M, "h_corpus",
                    dict(fmt="charmm", fn="crambin.crd", units={"atcoords": "angstrom"}, twin=True), expect="cex",
                    validate=False))
